@@ -1,5 +1,460 @@
 package main
 
-func objOp(toks []string, line string) (string, bool) { return "", false }
+import (
+	"bytes"
+	"encoding/hex"
+	"fmt"
+	"math"
+	"sort"
+	"strconv"
+	"strings"
 
-func genObj(suite string, o *out, r *rng, thorough bool) bool { return false }
+	"github.com/tidwall/geojson"
+	"github.com/tidwall/geojson/geometry"
+)
+
+// object-level worker ops
+
+var oenv = map[string]geojson.Object{}
+
+func unhex(h string) (string, bool) {
+	if h == "-" {
+		return "", true
+	}
+	b, err := hex.DecodeString(h)
+	if err != nil {
+		return "", false
+	}
+	return string(b), true
+}
+
+func kindName(o geojson.Object) string {
+	switch o.(type) {
+	case *geojson.Point:
+		return "Point"
+	case *geojson.SimplePoint:
+		return "SimplePoint"
+	case *geojson.LineString:
+		return "LineString"
+	case *geojson.Polygon:
+		return "Polygon"
+	case *geojson.Rect:
+		return "Rect"
+	case *geojson.Circle:
+		return "Circle"
+	case *geojson.MultiPoint:
+		return "MultiPoint"
+	case *geojson.MultiLineString:
+		return "MultiLineString"
+	case *geojson.MultiPolygon:
+		return "MultiPolygon"
+	case *geojson.GeometryCollection:
+		return "GeometryCollection"
+	case *geojson.FeatureCollection:
+		return "FeatureCollection"
+	case *geojson.Feature:
+		return "Feature"
+	}
+	return fmt.Sprintf("%T", o)
+}
+
+func errEnum(err error) string {
+	m := err.Error()
+	switch {
+	case m == "invalid data":
+		return "dataInvalid"
+	case m == "invalid type":
+		return "typeInvalid"
+	case m == "missing type":
+		return "typeMissing"
+	case strings.HasPrefix(m, "type '") && strings.HasSuffix(m, "' is unknown"):
+		return "typeUnknown"
+	case m == "invalid coordinates":
+		return "coordsInvalid"
+	case m == "missing coordinates":
+		return "coordsMissing"
+	case m == "missing geometry":
+		return "geometryMissing"
+	case m == "missing features":
+		return "featuresMissing"
+	case m == "invalid features":
+		return "featuresInvalid"
+	case m == "missing geometries":
+		return "geometriesMissing"
+	case m == "invalid geometries":
+		return "geometriesInvalid"
+	case m == "invalid circle radius units":
+		return "circleUnits"
+	}
+	return "other:" + strings.ReplaceAll(m, " ", "_")
+}
+
+func parseOpts(s string) (*geojson.ParseOptions, bool) {
+	f := strings.Split(s, ",")
+	if len(f) != 7 {
+		return nil, false
+	}
+	var v [7]int
+	for i := range f {
+		n, err := strconv.Atoi(f[i])
+		if err != nil {
+			return nil, false
+		}
+		v[i] = n
+	}
+	return &geojson.ParseOptions{
+		IndexChildren: v[0], IndexGeometry: v[1], IndexGeometryKind: geometry.IndexKind(v[2]),
+		RequireValid: v[3] != 0, AllowSimplePoints: v[4] != 0, DisableCircleType: v[5] != 0, AllowRects: v[6] != 0,
+	}, true
+}
+
+func hasCircle(o geojson.Object) bool {
+	switch v := o.(type) {
+	case *geojson.Circle:
+		return true
+	case *geojson.Feature:
+		return hasCircle(v.Base())
+	case geojson.Collection:
+		for _, c := range v.Children() {
+			if hasCircle(c) {
+				return true
+			}
+		}
+	}
+	return false
+}
+
+func objJSONCheck(o geojson.Object) string {
+	j := o.JSON()
+	mj, err := o.MarshalJSON()
+	same := err == nil && o.String() == j && string(mj) == j && string(o.AppendJSON(nil)) == j
+	// AppendJSON(prefix) = prefix ++ json, and the prefix's visible bytes are untouched,
+	// with no, some and ample spare capacity
+	appendOK := true
+	for _, spare := range []int{0, 3, len(j) + 64} {
+		prefix := make([]byte, 5, 5+spare)
+		copy(prefix, "\x01ab\xff{")
+		keep := append([]byte{}, prefix...)
+		res := o.AppendJSON(prefix)
+		if !bytes.Equal(prefix, keep) || len(res) != 5+len(j) || !bytes.Equal(res[:5], keep) || string(res[5:]) != j {
+			appendOK = false
+		}
+	}
+	v, t, d := structureOK(o, j)
+	return hx(j) + " same=" + b2s(same) + " append=" + b2s(appendOK) + " valid=" + b2s(v) + " type=" + b2s(t) + " depth=" + b2s(d)
+}
+
+func fbits(f float64) string {
+	if f == 0 {
+		f = 0 // -0 and +0 print alike
+	}
+	if math.IsNaN(f) {
+		return "nan"
+	}
+	return ratS(f)
+}
+
+func objOp(toks []string, line string) (string, bool) {
+	switch toks[0] {
+	case "oreset":
+		oenv = map[string]geojson.Object{}
+		otext = map[string]string{}
+		return "ok", true
+	case "oparse", "oparsewf", "oparsewfmix", "oparsedef", "oparserv":
+		if len(toks) < 4 {
+			return "bad-op", true
+		}
+		opts, ok := parseOpts(toks[2])
+		text, ok2 := unhex(toks[3])
+		if !ok || !ok2 {
+			return "bad-op", true
+		}
+		delete(oenv, toks[1])
+		otext[toks[1]] = text
+		o, err := geojson.Parse(text, opts)
+		if err != nil {
+			if o != nil {
+				return "err-with-object " + errEnum(err), true
+			}
+			return "err " + errEnum(err), true
+		}
+		if o == nil {
+			return "nil-object-without-error", true
+		}
+		oenv[toks[1]] = o
+		return "ok " + kindName(o) + " " + hx(o.JSON()), true
+	case "onew":
+		return onew(toks), true
+	case "ojson":
+		o, ok := oenv[toks[1]]
+		if !ok {
+			return "noobj", true
+		}
+		return objJSONCheck(o), true
+	case "oattrs":
+		o, ok := oenv[toks[1]]
+		if !ok {
+			return "noobj", true
+		}
+		r := o.Rect()
+		c := o.Center()
+		return fmt.Sprintf("%s%s %s,%s,%s,%s %s,%s %d", b2s(o.Empty()), b2s(o.Valid()),
+			fbits(r.Min.X), fbits(r.Min.Y), fbits(r.Max.X), fbits(r.Max.Y), fbits(c.X), fbits(c.Y), o.NumPoints()), true
+	case "opred":
+		a, ok := oenv[toks[1]]
+		b, ok2 := oenv[toks[2]]
+		if !ok || !ok2 {
+			return "noobj", true
+		}
+		return b2s(a.Contains(b)) + b2s(a.Within(b)) + b2s(a.Intersects(b)) + b2s(b.Intersects(a)) + b2s(b.Contains(a)) + b2s(b.Within(a)), true
+	case "ochildren":
+		o, ok := oenv[toks[1]]
+		if !ok {
+			return "noobj", true
+		}
+		c, ok := o.(geojson.Collection)
+		if !ok {
+			return "notcoll", true
+		}
+		var ks []string
+		for _, ch := range c.Children() {
+			ks = append(ks, kindName(ch)+":"+b2s(ch.Empty()))
+		}
+		var leaves []string
+		o.ForEach(func(g geojson.Object) bool { leaves = append(leaves, kindName(g)); return true })
+		return fmt.Sprintf("%d [%s] [%s]", len(ks), strings.Join(ks, ","), strings.Join(leaves, ",")), true
+	case "osearch":
+		// osearch ID minx miny maxx maxy stop : child search, canonicalised (sorted child indices)
+		o, ok := oenv[toks[1]]
+		if !ok {
+			return "noobj", true
+		}
+		c, ok := o.(geojson.Collection)
+		q, ok2 := queryBox(toks[2:6])
+		stop, err := strconv.Atoi(toks[6])
+		if !ok || !ok2 || err != nil {
+			return "bad-op", true
+		}
+		children := c.Children()
+		var got []int
+		calls := 0
+		c.Search(q, func(child geojson.Object) bool {
+			calls++
+			idx := -1
+			for i, ch := range children {
+				if ch == child {
+					idx = i
+				}
+			}
+			got = append(got, idx)
+			return !(stop != 0 && calls == stop)
+		})
+		sort.Ints(got)
+		if stop != 0 {
+			// which children are reported first depends on the index; the count does not
+			want := 0
+			for _, ch := range children {
+				if !ch.Empty() && ch.Rect().IntersectsRect(q) {
+					want++
+				}
+			}
+			subset := true
+			for _, g := range got {
+				if g < 0 || children[g].Empty() || !children[g].Rect().IntersectsRect(q) {
+					subset = false
+				}
+			}
+			for i := 1; i < len(got); i++ {
+				if got[i] == got[i-1] {
+					subset = false
+				}
+			}
+			return fmt.Sprintf("n=%d subset=%s", len(got), b2s(subset)), true
+		}
+		var ss []string
+		for _, g := range got {
+			ss = append(ss, strconv.Itoa(g))
+		}
+		return strings.Join(ss, ","), true
+	case "oindexed":
+		o, ok := oenv[toks[1]]
+		if !ok {
+			return "noobj", true
+		}
+		if c, ok := o.(geojson.Collection); ok {
+			return b2s(c.Indexed()), true
+		}
+		return "notcoll", true
+	}
+	if s, ok := xobjOp(toks); ok {
+		return s, true
+	}
+	if s, ok := geoOp(toks); ok {
+		return s, true
+	}
+	return "", false
+}
+
+func oline(toks []string) (*geometry.Line, []string, bool) {
+	// k m n coords...
+	if len(toks) < 3 {
+		return nil, nil, false
+	}
+	opts, ok := idxOpts(toks[0], toks[1])
+	n, err := strconv.Atoi(toks[2])
+	if !ok || err != nil || len(toks) < 3+2*n {
+		return nil, nil, false
+	}
+	pts, ok := parsePts(toks[3 : 3+2*n])
+	if !ok {
+		return nil, nil, false
+	}
+	return geometry.NewLine(pts, opts), toks[3+2*n:], true
+}
+
+func opoly(toks []string) (*geometry.Poly, []string, bool) {
+	// k m nrings (n coords)...
+	if len(toks) < 3 {
+		return nil, nil, false
+	}
+	opts, ok := idxOpts(toks[0], toks[1])
+	nr, err := strconv.Atoi(toks[2])
+	if !ok || err != nil {
+		return nil, nil, false
+	}
+	rest := toks[3:]
+	var rings [][]geometry.Point
+	for i := 0; i < nr; i++ {
+		if len(rest) < 1 {
+			return nil, nil, false
+		}
+		n, err := strconv.Atoi(rest[0])
+		if err != nil || len(rest) < 1+2*n {
+			return nil, nil, false
+		}
+		pts, ok := parsePts(rest[1 : 1+2*n])
+		if !ok {
+			return nil, nil, false
+		}
+		rings = append(rings, pts)
+		rest = rest[1+2*n:]
+	}
+	if len(rings) == 0 {
+		return nil, rest, true
+	}
+	return geometry.NewPoly(rings[0], rings[1:], opts), rest, true
+}
+
+// onew ID ctor args : objects from the public constructors (coordinates in sixteenths)
+func onew(toks []string) string {
+	if len(toks) < 3 {
+		return "bad-op"
+	}
+	id, ctor, args := toks[1], toks[2], toks[3:]
+	var o geojson.Object
+	switch ctor {
+	case "point", "spoint":
+		pts, ok := parsePts(args)
+		if !ok || len(pts) != 1 {
+			return "bad-op"
+		}
+		if ctor == "point" {
+			o = geojson.NewPoint(pts[0])
+		} else {
+			o = geojson.NewSimplePoint(pts[0])
+		}
+	case "pointz":
+		pts, ok := parsePts(args[:2])
+		z, ok2 := q16(args[2])
+		if !ok || !ok2 {
+			return "bad-op"
+		}
+		o = geojson.NewPointZ(pts[0], z)
+	case "rect":
+		pts, ok := parsePts(args)
+		if !ok || len(pts) != 2 {
+			return "bad-op"
+		}
+		o = geojson.NewRect(geometry.Rect{Min: pts[0], Max: pts[1]})
+	case "line":
+		l, _, ok := oline(args)
+		if !ok {
+			return "bad-op"
+		}
+		o = geojson.NewLineString(l)
+	case "polygon":
+		p, _, ok := opoly(args)
+		if !ok {
+			return "bad-op"
+		}
+		o = geojson.NewPolygon(p)
+	case "mp":
+		n, err := strconv.Atoi(args[0])
+		pts, ok := parsePts(args[1:])
+		if err != nil || !ok || len(pts) != n {
+			return "bad-op"
+		}
+		o = geojson.NewMultiPoint(pts)
+	case "mls":
+		n, err := strconv.Atoi(args[0])
+		if err != nil {
+			return "bad-op"
+		}
+		rest := args[1:]
+		var lines []*geometry.Line
+		for i := 0; i < n; i++ {
+			l, r, ok := oline(rest)
+			if !ok {
+				return "bad-op"
+			}
+			lines = append(lines, l)
+			rest = r
+		}
+		o = geojson.NewMultiLineString(lines)
+	case "mpg":
+		n, err := strconv.Atoi(args[0])
+		if err != nil {
+			return "bad-op"
+		}
+		rest := args[1:]
+		var polys []*geometry.Poly
+		for i := 0; i < n; i++ {
+			p, r, ok := opoly(rest)
+			if !ok {
+				return "bad-op"
+			}
+			polys = append(polys, p)
+			rest = r
+		}
+		o = geojson.NewMultiPolygon(polys)
+	case "gc", "fc":
+		n, err := strconv.Atoi(args[0])
+		if err != nil || len(args) != 1+n {
+			return "bad-op"
+		}
+		var cs []geojson.Object
+		for _, cid := range args[1:] {
+			c, ok := oenv[cid]
+			if !ok {
+				return "noobj"
+			}
+			cs = append(cs, c)
+		}
+		if ctor == "gc" {
+			o = geojson.NewGeometryCollection(cs)
+		} else {
+			o = geojson.NewFeatureCollection(cs)
+		}
+	case "feature":
+		c, ok := oenv[args[0]]
+		m, ok2 := unhex(args[1])
+		if !ok || !ok2 {
+			return "noobj"
+		}
+		o = geojson.NewFeature(c, m)
+	default:
+		return "bad-op"
+	}
+	oenv[id] = o
+	return "ok " + kindName(o) + " " + hx(o.JSON())
+}
